@@ -120,6 +120,7 @@ def progOfOp (s : CSt) (o : COp) : List Instr :=
       | [] => strBytes s!"?append{o.tid}"
     appendProg o.log o.arg h 0
   | "join" => if o.log == o.src then joinNoopProg else joinProg o.log o.src id o.arg
+  | "joinr" => joinRefusedProg o.log o.src
   | "setid" =>
     let cid := match o.res with | _ :: c :: _ => strBytes c | _ => []
     setIdentityProg o.log cid
@@ -147,6 +148,7 @@ def headOfThread (w : World) (t : Tid) : String :=
 def finishCase (s : CSt) : CSt :=
   let (s, w) := s.ensureWorld
   let s := s.spec "C14" "noDeadlock" (!s.deadlock) "watchdog: a goroutine neither parked nor finished"
+  let s := s.spec "C13" "noDeadlock" (!s.deadlock) "watchdog: a goroutine neither parked nor finished"
   let s := s.spec "C13" "lockExcludes" (!s.lockIgnored) "a goroutine moved although the lock it needs was held"
   if s.deadlock || s.lockIgnored then s else
   -- a size-bounded merge trims its log: what is claimed of logs that only grow (causal closure of
@@ -179,6 +181,11 @@ def finishCase (s : CSt) : CSt :=
     | "join", a :: _ =>
       let s := s.count "cmp:join"
       if (a == "ok") == !r.failed then s else s.diff s!"join tid={o.tid}" (if r.failed then "err" else "ok") a
+    | "joinr", a :: _ =>
+      -- a merge whose candidates the access controller refuses: the error outcome, nothing changes
+      let s := s.count "cmp:join.refused"
+      let s := s.spec "C06" "refusedJoinErrors" (a == "err") s!"tid {o.tid}: {a}"
+      if a == "err" then s else s.diff s!"joinr tid={o.tid}" "err" a
     | "setid", _ => s
     | "mh", a :: _ => if a == "ok" then s.count "cmp:mh" else s.diff s!"mh tid={o.tid}" "ok" a
     | "len", a :: _ =>
